@@ -1,7 +1,7 @@
 SPECIFICATION Spec
 CONSTANTS Layouts = {"mirror", "flat"}
  Deflibs = {"shared", "both", "static"}
- Behavioural = TRUE
+ Behavioural = "some"
 INVARIANT CollisionRuleCoherent
 INVARIANT ModelGraphWellFormed
 INVARIANT NoStuckSchedule
